@@ -142,3 +142,184 @@ Proof.
   clear -Hb. unfold bytes_ok in Hb. apply all_lt_Forall in Hb.
   induction Hb as [|c l Hc Hl IH]; simpl; [reflexivity|]. rewrite IH. rewrite latin1_byte_enc by exact Hc. reflexivity.
 Qed.
+
+(* ================= wide sinks ================= *)
+(* the reference: decode the whole byte sequence, then encode for the stream's unit width *)
+Definition transcode (w : wide) (raw : list N) : option (list N) :=
+  match decode_utf8 raw with
+  | Some cps => match w with WChar16 => encode_utf16 cps | _ => Some cps end
+  | None => None
+  end.
+
+(* the hypothesis of wide_sink, per writer call: a chunk that transcodes on its own and is below
+   the huge-buffer contract; a pad byte below 0x80 *)
+Definition chunk_ok (w : wide) (e : event) : Prop :=
+  match e with
+  | EApp d => N.of_nat (length d) < huge_buffer_size /\ exists u, transcode w d = Some u
+  | EPad ch count => ch < 128
+  end.
+
+Lemma option_map_app_nil (o : option (list N)) : option_map (app []) o = o.
+Proof. destruct o; reflexivity. Qed.
+
+Lemma option_map_cons_app c u (o : option (list N)) :
+  option_map (cons c) (option_map (app u) o) = option_map (app (c :: u)) o.
+Proof. destruct o; reflexivity. Qed.
+
+Lemma decode_app : forall n a, (length a <= n)%nat -> forall u b,
+  decode_utf8 a = Some u -> decode_utf8 (a ++ b) = option_map (app u) (decode_utf8 b).
+Proof.
+  induction n as [|n IH]; intros a Hl u b H.
+  { destruct a; [|simpl in Hl; lia]. inversion H. simpl. symmetry. apply option_map_app_nil. }
+  destruct a as [|c t]; [inversion H; simpl; symmetry; apply option_map_app_nil|].
+  simpl length in Hl. cbn [decode_utf8 app] in *.
+  destruct (c <? 128).
+  { destruct (decode_utf8 t) as [ut|] eqn:E; [|discriminate]. inversion H. subst u.
+    rewrite (IH t ltac:(lia) ut b E). apply option_map_cons_app. }
+  destruct (lead2 c).
+  { destruct t as [|c1 t1]; [discriminate|]. cbn [app]. simpl length in Hl.
+    destruct (is_cont c1); [|discriminate].
+    destruct (decode_utf8 t1) as [ut|] eqn:E; [|discriminate]. inversion H. subst u.
+    rewrite (IH t1 ltac:(lia) ut b E). apply option_map_cons_app. }
+  destruct (lead3 c).
+  { destruct t as [|c1 [|c2 t2]]; try discriminate. cbn [app]. simpl length in Hl.
+    destruct (is_cont c1 && is_cont c2); [|discriminate].
+    destruct (decode_utf8 t2) as [ut|] eqn:E; [|discriminate]. inversion H. subst u.
+    rewrite (IH t2 ltac:(lia) ut b E). apply option_map_cons_app. }
+  destruct (lead4 c); [|discriminate].
+  destruct t as [|c1 [|c2 [|c3 t3]]]; try discriminate. cbn [app]. simpl length in Hl.
+  destruct (is_cont c1 && is_cont c2 && is_cont c3); [|discriminate].
+  destruct (decode_utf8 t3) as [ut|] eqn:E; [|discriminate]. inversion H. subst u.
+  rewrite (IH t3 ltac:(lia) ut b E). apply option_map_cons_app.
+Qed.
+
+Lemma encode_utf16_app a : forall ua b ub,
+  encode_utf16 a = Some ua -> encode_utf16 b = Some ub -> encode_utf16 (a ++ b) = Some (ua ++ ub).
+Proof.
+  induction a as [|ch t IH]; intros ua b ub Ha Hb; cbn [encode_utf16 app] in *.
+  - inversion Ha. exact Hb.
+  - destruct (write_utf16 ch) as [u|]; [|discriminate].
+    destruct (encode_utf16 t) as [r|] eqn:E; [|discriminate]. inversion Ha. subst ua.
+    rewrite (IH r b ub eq_refl Hb). rewrite app_assoc. reflexivity.
+Qed.
+
+Lemma transcode_app w a b ua ub :
+  transcode w a = Some ua -> transcode w b = Some ub -> transcode w (a ++ b) = Some (ua ++ ub).
+Proof.
+  unfold transcode. intros Ha Hb.
+  destruct (decode_utf8 a) as [ca|] eqn:Ea; [|discriminate].
+  destruct (decode_utf8 b) as [cb|] eqn:Eb; [|discriminate].
+  rewrite (decode_app (length a) a (le_n _) ca b Ea), Eb. cbn [option_map].
+  destruct w; try (inversion Ha; inversion Hb; reflexivity).
+  apply encode_utf16_app; assumption.
+Qed.
+
+Lemma transcode_nil w : transcode w [] = Some [].
+Proof. destruct w; reflexivity. Qed.
+
+Lemma decode_repeat c : c < 128 -> forall n, decode_utf8 (repeat c n) = Some (repeat c n).
+Proof.
+  intros Hc. induction n as [|n IH]; [reflexivity|]. cbn [repeat decode_utf8].
+  assert (E : c <? 128 = true) by lia. rewrite E, IH. reflexivity.
+Qed.
+
+Lemma encode_repeat c : c < 128 -> forall n, encode_utf16 (repeat c n) = Some (repeat c n).
+Proof.
+  intros Hc. induction n as [|n IH]; [reflexivity|]. cbn [repeat encode_utf16]. unfold write_utf16.
+  assert (E : c <? 65536 = true) by lia. rewrite E, IH. reflexivity.
+Qed.
+
+Lemma transcode_repeat w c n : c < 128 -> transcode w (repeat c n) = Some (repeat c n).
+Proof.
+  intros Hc. unfold transcode. rewrite (decode_repeat c Hc). destruct w; try reflexivity.
+  apply encode_repeat. exact Hc.
+Qed.
+
+Lemma wide_chunk_ok w d u : N.of_nat (length d) < huge_buffer_size -> transcode w d = Some u ->
+  wide_chunk w d = Ok u.
+Proof.
+  intros Hs Ht. unfold transcode in Ht.
+  assert (E : huge_buffer_size <=? N.of_nat (length d) = false) by lia.
+  destruct (decode_utf8 d) as [cps|] eqn:Ed; [|discriminate].
+  destruct w; unfold wide_chunk, utf8_to_utf32_check, utf8_to_utf16_check; rewrite E, Ed;
+    try (inversion Ht; reflexivity).
+  rewrite Ht. reflexivity.
+Qed.
+
+Lemma feed_wide w : forall t acc, Forall (chunk_ok w) t ->
+  exists u, feed (wide_step w) acc t = (acc ++ u, Ok tt) /\ transcode w (bytes_of t) = Some u.
+Proof.
+  induction t as [|e t IH]; intros acc Ht.
+  - exists []. cbn [feed]. rewrite app_nil_r. split; [reflexivity|apply transcode_nil].
+  - inversion Ht as [|e' t' He Hrest]. subst.
+    destruct e as [d|c n]; cbn [chunk_ok] in He.
+    + destruct He as [Hs [ud Hud]].
+      destruct (IH (acc ++ ud) Hrest) as [ur [Hf Htr]].
+      exists (ud ++ ur). cbn [feed wide_step]. rewrite (wide_chunk_ok w d ud Hs Hud). cbn [bind].
+      rewrite Hf. rewrite <- app_assoc. split; [reflexivity|].
+      change (bytes_of (EApp d :: t)) with (d ++ bytes_of t). apply transcode_app; assumption.
+    + destruct (IH (acc ++ repeat c (N.to_nat n)) Hrest) as [ur [Hf Htr]].
+      exists (repeat c (N.to_nat n) ++ ur). cbn [feed wide_step].
+      assert (Hw : widen_char w c = c) by (unfold widen_char; assert (E : c <? 128 = true) by lia; rewrite E; reflexivity).
+      rewrite Hw, put_loop_repeat, Hf. rewrite <- app_assoc. split; [reflexivity|].
+      change (bytes_of (EPad c n :: t)) with (repeat c (N.to_nat n) ++ bytes_of t).
+      apply transcode_app; [apply transcode_repeat; exact He|exact Htr].
+Qed.
+
+(* C17 wide_sink: under the hypothesis, what the wide stream receives is the transcoding of the
+   concatenated bytes (the bytes the narrow sinks and ST::format see) and the writer never fails *)
+Theorem wide_sink w t : Forall (chunk_ok w) t ->
+  exists u, feed (wide_step w) [] t = (u, Ok tt) /\ transcode w (bytes_of t) = Some u.
+Proof. intros H. destruct (feed_wide w t [] H) as [u [A B]]. exists u. auto. Qed.
+
+Lemma wide_sink_witness :
+  format_to_string CheckValidity (Some [123; 125; 123; 125]) [AStr [195]; AStr [169]] = Ok [195; 169] /\
+  transcode WWchar [195; 169] = Some [233] /\
+  format_to_stream (StWide WWchar) (Some [123; 125; 123; 125]) [AStr [195]; AStr [169]] = ([], Throw UnicodeError).
+Proof. vm_compute. auto. Qed.
+
+Lemma chunk_ok_example : Forall (chunk_ok WChar16) [EApp [195; 169]; EPad 32 3; EApp [240; 159; 152; 128]].
+Proof.
+  repeat constructor; try (vm_compute; reflexivity); try (eexists; vm_compute; reflexivity).
+Qed.
+
+(* ================= stream insertion ================= *)
+Lemma decode_lax_agrees : forall n s, (length s <= n)%nat -> forall u,
+  decode_utf8 s = Some u -> decode_utf8_lax s = u.
+Proof.
+  induction n as [|n IH]; intros s Hl u H.
+  { destruct s; [|simpl in Hl; lia]. inversion H. reflexivity. }
+  destruct s as [|c t]; [inversion H; reflexivity|].
+  simpl length in Hl. cbn [decode_utf8 decode_utf8_lax] in *.
+  destruct (c <? 128).
+  { destruct (decode_utf8 t) as [ut|] eqn:E; [|discriminate]. inversion H. f_equal. apply (IH t); [lia|exact E]. }
+  destruct (lead2 c).
+  { destruct t as [|c1 t1]; [discriminate|]. simpl length in Hl. destruct (is_cont c1); [|discriminate].
+    destruct (decode_utf8 t1) as [ut|] eqn:E; [|discriminate]. inversion H. f_equal. apply (IH t1); [lia|exact E]. }
+  destruct (lead3 c).
+  { destruct t as [|c1 [|c2 t2]]; try discriminate. simpl length in Hl. destruct (is_cont c1 && is_cont c2); [|discriminate].
+    destruct (decode_utf8 t2) as [ut|] eqn:E; [|discriminate]. inversion H. f_equal. apply (IH t2); [lia|exact E]. }
+  destruct (lead4 c); [|discriminate].
+  destruct t as [|c1 [|c2 [|c3 t3]]]; try discriminate. simpl length in Hl.
+  destruct (is_cont c1 && is_cont c2 && is_cont c3); [|discriminate].
+  destruct (decode_utf8 t3) as [ut|] eqn:E; [|discriminate]. inversion H. f_equal. apply (IH t3); [lia|exact E].
+Qed.
+
+Lemma utf16_lax_agrees : forall u v, encode_utf16 u = Some v -> flat_map utf16_unit_lax u = v.
+Proof.
+  induction u as [|ch t IH]; intros v H; cbn [encode_utf16 flat_map] in *.
+  - inversion H. reflexivity.
+  - unfold utf16_unit_lax. destruct (write_utf16 ch) as [x|]; [|discriminate].
+    destruct (encode_utf16 t) as [r|] eqn:E; [|discriminate]. inversion H. f_equal. apply IH. reflexivity.
+Qed.
+
+(* os << s : the bytes for a char stream; for well-formed text the reference transcoding *)
+Theorem insertion s :
+  insert_units CtChar s = s /\
+  (forall u, decode_utf8 s = Some u ->
+     insert_units CtChar32 s = u /\ insert_units CtWchar s = u /\
+     (forall v, encode_utf16 u = Some v -> insert_units CtChar16 s = v)).
+Proof.
+  split; [reflexivity|]. intros u H. pose proof (decode_lax_agrees (length s) s (le_n _) u H) as E.
+  unfold insert_units. rewrite E. repeat split. intros v Hv. apply utf16_lax_agrees. exact Hv.
+Qed.
